@@ -10,7 +10,7 @@ BASE_TIME = 1600000000        # all scenario time stamps are BASE_TIME + small o
 
 class Conf:
     def __init__(self, nd=2, np=2, copies=2, hash_size=16, hash_kind="murmur3", splits=None, zmode=False,
-                 holes=(), block_kib=1, autosave=0, extra=(), disk_names=None, nohidden=False, pool=False):
+                 holes=(), block_kib=1, autosave=0, extra=(), disk_names=None, nohidden=False, pool=False, inomode=False):
         self.nd, self.np, self.copies = nd, np, copies
         self.hash_size, self.hash_kind = hash_size, hash_kind
         self.splits = splits or [1] * np          # number of files per level
@@ -22,6 +22,9 @@ class Conf:
         self.disk_names = disk_names or ["d%d" % (i + 1) for i in range(nd)]
         self.nohidden = nohidden
         self.pool = pool
+        # inode mode: every command gets --test-fake-uuid, which gives the first two data disks a UUID (the sandbox has none):
+        # from the second sync on their recorded inode numbers are trusted by the scan (moves are recognised by inode)
+        self.inomode = inomode
 
     def to_json(self):
         return dict(self.__dict__)
@@ -108,7 +111,9 @@ class Array:
             lines.append("%s %s" % (name, ",".join(self.pfile(l, s) for s in range(c.splits[l]))))
         for k in range(c.copies):
             lines.append("content %s" % self.cfile(k))
-        for d in range(c.nd):
+        # data_reversed: the data lines in the opposite order (with --test-fake-uuid the UUID of a disk follows the position of
+        # its line: reversing the lines is a change of UUID for the first two disks)
+        for d in (reversed(range(c.nd)) if getattr(self, "data_reversed", False) else range(c.nd)):
             if d in drop_disks:
                 continue
             lines.append("data %s %s/" % (c.disk_names[d], self.ddir(d)))
@@ -272,6 +277,9 @@ class Array:
         argv = [self.bin, "-c", conf or self.conf_path()] + (base_flags if base_flags is not None else self.BASE_FLAGS)
         if hashflag and self.conf.hash_kind in ("murmur3", "spooky2"):
             argv.append("--test-force-" + self.conf.hash_kind)
+        if getattr(self.conf, "inomode", False) and "--test-fake-uuid" not in [str(x) for x in args]:
+            # --force-uuid: a change of the UUIDs (data lines reordered) is accepted; that interlock is not the subject here
+            argv += ["--test-fake-uuid", "--force-uuid"]
         # the depth of the I/O ring does not change any result (C13): vary it from command to command
         if getattr(self, "io_vary", False) and cmd in ("sync", "scrub", "check", "fix") and "--test-io-cache" not in [str(x) for x in args]:
             argv += ["--test-io-cache", str([1, 3, 4, 8, 128][(self.seed + self.ncmd) % 5])]
